@@ -375,7 +375,10 @@ class Engine:
         for i, res in enumerate(results):
             prog = progs[i] if progs else None
             if res.get("inconclusive"):
-                raise vlib.Inconclusive("%s %s: %s" % (kind, res.get("name"), res["inconclusive"]))
+                # machinery problem of this run only; decided at the end (a
+                # violation established on another run stands)
+                self.inconcl.append("%s %s: %s" % (kind, res.get("name"), res["inconclusive"]))
+                continue
             if res.get("saw_get"):
                 self.saw_get = True
             rep = {"kind": kind, "name": res.get("name"),
@@ -383,6 +386,11 @@ class Engine:
                    "batches": res["batches"], "delivered": res["delivered"], "events": res["events"]}
             if res.get("panic"):
                 self.report("getmessages-panic", kind, "getMessages panicked: " + res["panic"][:300], rep)
+                continue
+            if res.get("livelock") and [list(x) for x in res["delivered"]] == expected_of(res["batches"] or []):
+                self.ndrift += 1
+                ctx.drift("%s %s: reader loops (%s) but the client already has every message" % (
+                    kind, res.get("name"), res["livelock"]))
                 continue
             if res.get("livelock"):
                 self.report("getmessages-resume-livelock", kind,
@@ -565,6 +573,7 @@ def run(ctx):
     eng = Engine(ctx)
     eng.flagged = []
     eng.nviol = {}
+    eng.inconcl = []
     eng.ndrift = 0
     eng.saw_get = False
     quick = ctx.quick
@@ -583,6 +592,8 @@ def run(ctx):
         ctx.log("replayed %s: delivered %s, session's messages %s" % (
             prog["name"], res[0]["delivered"], expected_of(res[0]["batches"])))
         eng.assess("replay", [prog], res)
+        if eng.inconcl and not ctx.violations and not ctx.known_hits:
+            raise vlib.Inconclusive(eng.inconcl[0])
         return
 
     eng.build()
@@ -733,6 +744,12 @@ def run(ctx):
             ctx.cov["binding_selftest"] = {"skipped": "base scenario not accepted on this tree"}
     finally:
         th.join()
+
+    if eng.inconcl:
+        ctx.cov["inconclusive_runs"] = len(eng.inconcl)
+        ctx.note("inconclusive runs: %s" % eng.inconcl[:5])
+        if not ctx.violations and not ctx.known_hits:
+            raise vlib.Inconclusive("%d run(s) without outcome, e.g. %s" % (len(eng.inconcl), eng.inconcl[0]))
 
     # ------------------------------------------------------------- design-level result
     if "small_err" in tlc_res:
